@@ -71,7 +71,9 @@ def rnd_params(rng, mod, wide=True):
                 v = 10 ** rng.uniform(0, 5)
                 v = min(v, hi) if math.isfinite(p.max) else v
             elif pname == "t":
-                v = 10 ** rng.uniform(-8, -5)
+                # (down to the lower bound of the parameter: very thin layers)
+                v = 10 ** rng.uniform(-8, -5) if rng.random() < 0.6 else \
+                    10 ** rng.uniform(-12, -8)
             elif pname == "R":
                 v = 10 ** rng.uniform(-7, -4)
             elif pname.startswith("nu"):
